@@ -65,7 +65,7 @@ def run(ctx):
     # behaviours for replay
     beh = []
     for cfg in ("Gen_A", "Gen_B"):
-        num = ctx.pick(100, 2000)
+        num = ctx.pick(100, 1200)
         g = ctx.tlc(SPEC, "Gen_AsyncMachine", cfg=cfg, mode="simulate", num=num, depth=400, workers=1, label=cfg,
                     dump_trace=False, timeout=ctx.pick(300, 1800))
         b = ctx.read_emitted(g, "behaviours.ndjson")
@@ -86,7 +86,7 @@ def run(ctx):
     ctx.note("replay set: %d behaviours, %d steps, outcomes %s" % (len(beh), sum(acts.values()), kinds))
     ctx.extra["replay_actions"] = acts
     go = ctx.gotest(PKG, "^TestVerif_C15_(Replay|Free)$", ["c15_test.go"], inputs={"behaviours.ndjson": beh},
-                    env={"VERIF_RUNS": ctx.pick(60, 1200), "VERIF_WORKERS": 48}, label="state", timeout=ctx.pick(900, 3000))
+                    env={"VERIF_RUNS": ctx.pick(60, 600), "VERIF_WORKERS": 48}, label="state", timeout=ctx.pick(900, 3000))
     ctx.absorb(go)
     hung = (go.reports.get("free", {}).get("extra") or {}).get("hung")
     if hung and not ctx.violations:
